@@ -266,6 +266,22 @@ def run_shard(spec, rec):
                 rec.sample({"source": src, "string": text[:200], "compiles": o[0] == "ok"}, limit=8)
     finally:
         sites.stop()
+    # comparison battery: every ordered pair of structured values under every operator, from queries and from value()
+    CMPV = [None, True, 0, 1.5, "a", [], [1], [[1]], [{"x": 1}], {}, {"x": 1}, {"y": 1}, {"x": 2}, {"x": 1, "y": 2}, {"y": 2, "x": 1}, {"x": {"p": 1}}, {"x": {"q": 1}},
+            {"x": [1, {"k": 0}]}, {"x": [1, {"j": 0}]}, 10**400, [10**400], {"x": None}, {"y": None}]
+    if spec.get("seed", "").endswith("/0") or True:
+        for i_, a in enumerate(CMPV):
+            for b in CMPV:
+                doc = [{"a": a, "b": b}, {"a": b, "b": a}, {"a": a}, a]
+                for text in ("$[?@.a == @.b]", "$[?@.a != @.b]", "$[?@.a <= @.b]", "$[?@.a > @.b]", "$[?value(@.a) == value(@.b)]", "$[?@ == $[3]]", "$[?$[0].a >= @.b]"):
+                    rec.wal({"compile": text, "apply_to": D.short(doc, 300)})
+                    o2 = mon.observe(lambda: list(jp.finditer(text, doc)))
+                    rec.monitor("M-find")
+                    rec.case((text, D.short(doc, 500)), True)
+                    bad = outcome_bad(o2)
+                    if bad:
+                        rec.violation("find:" + bad, {"query": text, "source": "comparison-battery", "document": jsonable(doc), "observed": mon.describe_outcome(o2)})
+        rec.feat("comparison-battery")
     stmts = raise_statements(pkg)
     hit = {k.split(" ")[0] for k in sites.sites}
     rec.extra["raise_sites"] = sites.sites
